@@ -173,6 +173,22 @@ func genBuiltinCalls(stream string, seed uint64, perFn int) []GenCase {
 		add(fmt.Sprintf("return [replace(\"abc\", %s, \"x\"), match(\"abc\", %s)];", pat, pat), "invalid-pattern")
 		add(fmt.Sprintf("if (\"abc\" ~= %s) { return 1; } return replace(Name, %s, \"\");", pat, pat), "invalid-pattern")
 	}
+	// trim removes every kind of white space Unicode knows (as strings.TrimSpace does), at both ends, and nothing else
+	for _, ws := range []string{"\f", "\v", "\u00a0", "\u0085", "\u2003", "\u2028", "\u3000", "\u1680", "\t \r\n", "\u200b", "\ufeff", "_"} {
+		for _, body := range []string{"x", "a" + ws + "b", ""} {
+			str := ws + body + ws + ws
+			c := Case{ID: fmt.Sprintf("%s-%d", stream, id), Opt: r.Bool(), Fns: []HostFn{recFn()}, Tags: []string{"trim-unicode-space"},
+				Script: "s = \"" + str + "\"; t = trim(s); return [t, len(t), len(s), t == trim(t), trim(Name + s)];",
+				Runs:   []Run{{Obj: stdObject(r), Polls: defaultPolls}}}
+			id++
+			out = append(out, GenCase{Case: c, Stream: stream, NonTrivial: true})
+			want := strings.TrimSpace(str)
+			c2 := Case{ID: fmt.Sprintf("%s-%d", stream, id), Opt: r.Bool(), Fns: []HostFn{recFn()}, Tags: []string{"trim-unicode-space"},
+				Script: "return trim(\"" + str + "\") == \"" + want + "\";", Runs: []Run{{Obj: stdObject(r), Polls: defaultPolls}}}
+			id++
+			out = append(out, GenCase{Case: c2, Stream: stream, NonTrivial: true, Role: "expecttrue"})
+		}
+	}
 	// the replacement text of replace() is a template: $0, $1, ${1}, $name, $$ - whatever the pattern looks like
 	for _, pat := range []string{"\"-\"", "\"b\"", "/-/", "/(b)/", "/(?P<x>b)/", "\"a|c\"", "\"\""} {
 		for _, rep := range []string{"\"<$0>\"", "\"$1\"", "\"${1}x\"", "\"$$\"", "\"$x\"", "\"[$0$0]\"", "\"$\"", "\"$9\""} {
